@@ -381,6 +381,7 @@ PROPS["C17"] = {
         "a provide-once issued while the provider reports itself offline is not owed (the library's tests pin that it is dropped without error), nor one that was still queued when the provider declared itself offline (the queue is emptied); a key started or left unadvertised in that state is owed its regular slot",
         "where the library ends a swarm exploration early and where it replaces scheduled prefixes by a shorter one is taken from two verif hook points (explore:gaveup, schedule:subsume), so that the two known findings are attributed exactly and every other late or misdirected advertisement is a violation",
         "the provider's random keys (network size estimation) are drawn from a scenario-seeded stream substituted for crypto/rand.Reader so that runs can be repeated; remaining scheduling differences are covered by running a replay four times",
+        "the node's address set changes at quiescent points in some runs (one to three addresses); every record is compared byte for byte with the addresses current at the instant it is sent",
         "replication factors 2-5 with swarms of 4-90 peers; behind the buffered wrapper (a quarter of the runs; its queue store survives restarts like the other stores) the same clauses are judged; the dual wrapper is not exercised",
     ],
     "explanation": "BufferedOps.tla models the buffered wrapper's coalescing of a batch of start / forced start / provide-once / stop operations against applying them one by one (same kept set, every advertisement asked for last is queued) for all batches up to length 6 over 2 keys, with two negative controls; a real SweepingProvider (optionally behind the buffered wrapper) runs histories of start/once/stop calls, swarm growth and shrinkage, outages, restarts over several reprovide cycles of virtual time against a router and message sender that answer from a simulated swarm; TLC validates every advertisement (exactly the r nearest peers, current addresses), first advertisement and the reprovide deadline also after connectivity and delivery outages (missed work caught up within ten minutes), and silence after stop against SweepTrace.tla; ScheduleMerge.tla models the reprovide schedule under the two ways scheduled prefixes are replaced by a shorter one.",
